@@ -1213,6 +1213,60 @@ static NOINSTR void parts_of(const asn_TYPE_descriptor_t *td) {
     }
 }
 
+
+/* Pointer closure of the image (the hypothesis `closed` of coq/Conc/DescrClosure.v, tied directly): no word of the watched image
+ * holds the address of WRITABLE memory outside the image (heap, another object's data, the stack).  Words pointing into the
+ * library itself or into read-only / executable mappings are fine; everything else that looks like an address is reported
+ * (the check drops the dynamic linker's own slots, .got / .got.plt, by section). */
+#define MAXMAP 512
+static struct { uintptr_t lo, hi; int writable; char name[48]; } MAPS[MAXMAP];
+static int NMAPS;
+static NOINSTR void read_maps(void) {
+    FILE *f = fopen("/proc/self/maps", "r");
+    char line[512];
+    NMAPS = 0;
+    if(!f) return;
+    while(fgets(line, sizeof line, f) && NMAPS < MAXMAP) {
+        unsigned long lo, hi; char perms[8]; int off = 0;
+        if(sscanf(line, "%lx-%lx %7s %*s %*s %*s %n", &lo, &hi, perms, &off) < 3) continue;
+        MAPS[NMAPS].lo = lo; MAPS[NMAPS].hi = hi; MAPS[NMAPS].writable = (perms[1] == 'w');
+        {
+            const char *nm = off ? line + off : "";
+            const char *sl = strrchr(nm, '/');
+            size_t k;
+            if(sl) nm = sl + 1;
+            for(k = 0; k < sizeof MAPS[0].name - 1 && nm[k] && nm[k] != '\n' && nm[k] != ' '; k++) MAPS[NMAPS].name[k] = nm[k];
+            MAPS[NMAPS].name[k] = 0;
+            if(!k) strcpy(MAPS[NMAPS].name, "anon");
+        }
+        NMAPS++;
+    }
+    fclose(f);
+}
+static NOINSTR unsigned long scan_closure(const char *when) {
+    unsigned long nptr_in = 0, nbad = 0;
+    int i, k;
+    read_maps();
+    for(i = 0; i < NSEG; i++) {
+        uintptr_t a;
+        for(a = (SEGS[i].lo + 7) & ~(uintptr_t)7; a + 8 <= SEGS[i].hi; a += 8) {
+            uintptr_t v = *(const uintptr_t *)a;
+            if(v < 4096) continue;
+            if(v >= LIB_LO && v < LIB_HI) { nptr_in++; continue; }
+            for(k = 0; k < NMAPS; k++)
+                if(v >= MAPS[k].lo && v < MAPS[k].hi) {
+                    if(MAPS[k].writable) {
+                        nbad++;
+                        if(nbad <= 64) printf("PTRX when=%s off=0x%lx target=%s\n", when, (unsigned long)(a - LIB_BASE), MAPS[k].name);
+                    }
+                    break;
+                }
+        }
+    }
+    printf("CLOSURE when=%s words_pointing_into_library=%lu words_pointing_to_writable_memory_outside=%lu\n", when, nptr_in, nbad);
+    return nbad;
+}
+
 /* function coverage of the library side (-finstrument-functions) */
 #define FSET 16384
 static void *FSEEN[FSET];
@@ -1252,6 +1306,7 @@ static NOINSTR int main_ro(uint64_t seed, int iters, int protect) {
     if(protect) {
         for(i = 0; i < NTY; i++) parts_of(TY[i]);
         printf("PARTS w=%lu r=%lu outside=%lu\n", PARTS_W, PARTS_R, PARTS_X);
+        scan_closure("start");
     }
     ss.ss_sp = malloc(1 << 16); ss.ss_size = 1 << 16; ss.ss_flags = 0;
     sigaltstack(&ss, 0);
@@ -1308,6 +1363,7 @@ static NOINSTR int main_ro(uint64_t seed, int iters, int protect) {
             }
         }
     }
+    if(protect) scan_closure("end");
     for(i = 0; i < FSET; i++)
         if(FSEEN[i]) printf("FUNC 0x%lx\n", (unsigned long)((uintptr_t)FSEEN[i] - LIB_BASE));
     for(i = 0; i < NTY; i++)
